@@ -72,8 +72,9 @@ class JSONRPC2Connection:
     def _read_header_content_length(self, line):
         if len(line) < 2 or line[-2:] != "\r\n":
             raise JSONRPC2ProtocolError("Line endings must be \\r\\n")
-        if line.startswith("Content-Length: "):
-            _, value = line.split("Content-Length: ")
+        # Field names are case-insensitive, whitespace after the colon is optional
+        name, _, value = line.partition(":")
+        if name.lower() == "content-length":
             value = value.strip()
             try:
                 return int(value)
